@@ -10,7 +10,7 @@ import numpy as np
 from hypothesis import strategies as st
 
 from vf import scenario_kit as kit  # installs the Ray double before resonaate is imported
-from vf.oracles import geodesy
+from vf.oracles import geodesy, sidereal
 from vf.runner import Prop, Violation
 from vf.strategies.instants import eop_instants, iso, parse
 
@@ -31,6 +31,7 @@ PROP = Prop(
     ],
 )
 PROP.selftest(geodesy.selftest)
+PROP.selftest(sidereal.selftest)
 
 POS_TOL = 1e-3   # km   (the property: within a metre; a 1 s epoch slip is 0.46 km at the equator)
 VEL_TOL = 1e-7   # km/s (Earth-fixed velocity of the reported state; a 1 s slip leaves this unchanged, a wrong rate does not)
@@ -50,7 +51,13 @@ def _starts():
 
 def _comp_cases():
     el = st.one_of(st.integers(0, 3 * 86400), st.integers(0, 600), st.sampled_from([0, 1, 60, 86400]))
-    return st.builds(lambda s, t, e: {"lat": s[0], "lon": s[1], "alt": s[2], "start": iso(t), "elapsed": e}, _sites(), _starts(), el)
+    free = st.builds(lambda s, t, e: {"lat": s[0], "lon": s[1], "alt": s[2], "start": iso(t), "elapsed": e}, _sites(), _starts(), el)
+    # epochs that fall exactly on 00:00:00 (start = midnight - elapsed)
+    on_midnight = st.builds(
+        lambda s, t, e: {"lat": s[0], "lon": s[1], "alt": s[2], "elapsed": e,
+                         "start": iso(t.replace(hour=0, minute=0, second=0, microsecond=0) - timedelta(seconds=e))},
+        _sites(), eop_instants(margin_days=5), st.one_of(st.integers(0, 900), st.sampled_from([0, 60, 300, 86400])))
+    return st.one_of(free, free, on_midnight)
 
 
 def _expect(case, when, state, rec, what):
@@ -73,6 +80,18 @@ def _expect(case, when, state, rec, what):
     # (polar motion moves the rotation axis by up to ~20 m at the surface: absolute allowance of w * 0.05 km)
     if abs(speed - Earth.spin_rate * rho) > Earth.spin_rate * 0.05 + 1e-6 * speed:
         raise Violation("ground_speed", f"{what}: inertial speed {speed!r} km/s, expected about {Earth.spin_rate * rho!r}")
+    # independent orientation: the comparison above goes through the repository's own inertial->Earth-fixed rotation, which the
+    # reported state was built with, so a slip of the Earth-rotation argument cancels there.  The right ascension of the site
+    # must be the Greenwich angle (independent GMST-82 of UT1 minus precession, good to 2e-4 rad) plus its longitude.
+    from resonaate.physics.transforms.eops import getEarthOrientationParameters
+
+    ind = np.array(sidereal.ecef_to_j2000_direction(want, when, getEarthOrientationParameters(when.date()).delta_ut1))
+    got = np.asarray(state, dtype=float)[:3]
+    d = float(np.arctan2(np.linalg.norm(np.cross(ind, got)), ind.dot(got)))
+    rec.err("direction_vs_independent_rad", d)
+    # (the independent chain omits nutation and polar motion: worst observed 5e-5 rad, bound ~1e-4; a one-second slip is 7.3e-5 rad more, a day 1.7e-2)
+    if d > 2.5e-4:
+        raise Violation("ground_orientation", f"{what}: the site's inertial direction is {d:.3e} rad ({d * np.linalg.norm(got):.1f} km) away from an independent GMST-82 + IAU-76 precession computation (lat={case['lat']!r}, lon={case['lon']!r}, epoch {when.isoformat()})")
 
 
 @PROP.clause("component", strategy=_comp_cases, quick=3000, thorough=120000, shards=4)
@@ -93,6 +112,8 @@ def component(c, rec):
         rec.nontrivial([c["start"], round(c["lat"], 1), round(c["lon"], 1), el])
     if crosses:
         rec.label("crosses_midnight")
+    if (when.hour, when.minute, when.second) == (0, 0, 0):
+        rec.label("epoch_exactly_midnight")
     cfg = SensingAgentConfig(**kit.ground_sensor(30001, c["lat"], c["lon"], c["alt"]))
     clock = SimpleNamespace(julian_date_start=datetimeToJulianDate(t0), datetime_start=t0)
     dyn = dynamicsFactory(cfg, PropagationConfig(), GeopotentialConfig(), PerturbationsConfig(), clock)
